@@ -156,12 +156,17 @@ class BMCI:
                  :math:`\chi^2` limits.
 
         """
-        y_proj = np.dot(self.pc1, (y_obs - self.y_mean).ravel())
-        s_l = y_proj - np.sqrt(2.0 * x2_max / self.pc1_e)
-        s_u = y_proj + np.sqrt(2.0 * x2_max / self.pc1_e)
-        inds = np.searchsorted(self.pc1_proj, np.array([s_l, s_u]))
+        dy = (y_obs - self.y_mean).ravel()
+        y_proj = np.dot(self.pc1, dy)
+        # Half-width of the search interval, widened by the rounding error of
+        # the projections so that entries on its boundary are not lost.
+        ds = np.sqrt(2.0 * x2_max / self.pc1_e)
+        ds += 4.0 * self.m * np.finfo(float).eps * np.dot(np.abs(self.pc1),
+                                                          np.abs(dy))
+        i_l = np.searchsorted(self.pc1_proj, y_proj - ds, side="left")
+        i_u = np.searchsorted(self.pc1_proj, y_proj + ds, side="right")
 
-        return inds[0], inds[1], inds[1] - inds[0]
+        return i_l, i_u, i_u - i_l
 
     def __gauss_prob(self, y_obs, y_database):
 
